@@ -36,6 +36,16 @@ func buildMapping(s *indexSpec) (*mapping.IndexMappingImpl, error) {
 			return nil, fmt.Errorf("%s %q: %v", c.Kind, c.Name, err)
 		}
 	}
+	// definitions the mapping must refuse (unknown component type, reference to an undefined tokenizer, a name
+	// that is already taken): a refused call returns an error and must leave no trace in the mapping or its JSON
+	_ = im.AddCustomTokenFilter("c16_refused_tf", map[string]interface{}{"type": "c16_no_such_type"})
+	_ = im.AddCustomAnalyzer("c16_refused_an", map[string]interface{}{"type": "custom", "tokenizer": "c16_no_such_tokenizer"})
+	for _, c := range s.Analysis {
+		if c.Kind == kAnalyzer {
+			_ = im.AddCustomAnalyzer(c.Name, map[string]interface{}{"type": "custom", "tokenizer": "single"})
+			break
+		}
+	}
 	im.DefaultMapping = buildDoc(s.Default)
 	for _, n := range s.TypeNames {
 		im.AddDocumentMapping(n, buildDoc(s.Types[n]))
